@@ -34,7 +34,7 @@ class Contract:
                types=None, lemmas=None, defs=None, hints=None, cases=None, recdefs=None,
                facts=None, entry_facts=None, cm=False, enter_ensures=None, exit_post=None,
                exc_rel=None, swallows=None, havoc_all=False, ghost_writes=(), pivots=None,
-               may_raise_from=None):
+               may_raise_from=None, desugar=False):
     self.id = cid
     self.file = file
     self.qualname = qualname
@@ -42,6 +42,10 @@ class Contract:
     self.ensures = ensures or (lambda c: z3.BoolVal(True))
     self.raises = raises or {}           # exc name -> Ctx(pre) -> Bool  (raised only if)
     self.raises_post = raises_post or {}  # exc name -> Ctx -> Bool (post-state on that exit)
+    # desugar=True: comprehensions assigned to a name are rewritten, mechanically and on every
+    # run, into the equivalent accumulator loop (see loader.desugar_comprehensions), so that a
+    # comprehension whose element expression runs user code can carry a loop invariant
+    self.desugar = desugar
     self.may_raise = tuple(may_raise)    # exception class names that may escape, no condition
     # if given: `may_raise` exceptions may only originate from these callee contract ids
     self.may_raise_from = tuple(may_raise_from) if may_raise_from is not None else None
